@@ -45,11 +45,99 @@ def h_nearest(ctx):
         ctx.check(d.shape == (1,), "leading-time-axis")
 
 
+def h_payload(ctx):
+    """Payload forms x grid kinds x unit pairs with symbolic values through the real link."""
+    from finam.errors import FinamDataError
+    hlib.reset_finam_state()
+    gk = ["nogrid0", "nogrid1", "uniform_cells", "uniform_points_C", "esri", "unstructured"][ctx.choice("grid", 6)]
+    grid = {
+        "nogrid0": lambda: fm.NoGrid(), "nogrid1": lambda: fm.NoGrid(1),
+        "uniform_cells": lambda: fm.UniformGrid((3, 4)),
+        "uniform_points_C": lambda: fm.UniformGrid((2, 3), data_location="POINTS", order="C"),
+        "esri": lambda: fm.EsriGrid(ncols=3, nrows=2),
+        "unstructured": lambda: fm.UniformGrid((3, 3)).to_unstructured(),
+    }[gk]()
+    shape = {"nogrid0": (), "nogrid1": (2,)}.get(gk) if gk.startswith("nogrid") else tuple(grid.data_shape)
+    n = int(np.prod(shape)) if shape else 1
+    pu, cu, given = [("m", "m", None), ("m", "mm", None), ("degC", "K", None), ("m", "km", "cm"), ("m", "m", "km")][
+        ctx.choice("units", 5)]
+    form = ["array", "list", "flat", "with_time_axis", "masked", "scalar"][ctx.choice("form", 6)]
+    if form == "scalar" and gk != "nogrid0":
+        ctx.cut("scalar-needs-0d")
+    if form == "flat" and gk.startswith("nogrid"):
+        ctx.cut("flat-needs-grid")
+    if form == "masked" and gk == "nogrid0":
+        ctx.cut("0-d masked object arrays collapse to scalars inside numpy.ma (proxy limitation)")
+    vals = [ctx.real(f"x{q}") for q in range(n)]
+    X = np.empty(shape, dtype=object)
+    for q, idx in enumerate(np.ndindex(*shape)):
+        X[idx] = vals[q]
+    if not shape:
+        X = np.array(vals[0], dtype=object)
+    order = getattr(grid, "order", "C")
+    M = None
+    if form == "array":
+        data = X
+    elif form == "list":
+        data = X.tolist()
+    elif form == "flat":
+        data = X.reshape(-1, order=order)
+    elif form == "with_time_axis":
+        data = X[np.newaxis, ...]
+    elif form == "masked":
+        M = (np.arange(n).reshape(shape) % 2 == 0) if shape else np.array(False)
+        data = np.ma.array(X, mask=M)
+    else:
+        data = vals[0]
+    if given is not None:
+        data = fm.UNITS.Quantity(np.asarray(data, dtype=object) if form != "masked" else data, given)
+    out = fm.Output(name="out", info=fm.Info(time=hlib.T0, grid=grid, units=pu))
+    inp = fm.Input(name="in", info=fm.Info(time=hlib.T0, grid=None, units=cu))
+    out >> inp
+    inp.ping()
+    inp.exchange_info()
+    out.push_data(data, hlib.T0)
+    d = inp.pull_data(hlib.T0)
+    sig = f"{gk}:{form}:{given or pu}->{pu}->{cu}"
+    ctx.cover("delivered")
+    ctx.check(tuple(d.shape) == (1,) + tuple(shape), "delivered-shape", {"sig": sig, "shape": str(d.shape)})
+    ctx.check(d.units == fm.UNITS.Unit(cu), "delivered-units", {"sig": sig})
+    src_u = given or pu
+    c0 = float(fm.UNITS.Quantity(0.0, src_u).to(cu).magnitude)
+    c1 = float(fm.UNITS.Quantity(1.0, src_u).to(cu).magnitude)
+    a, b = c1 - c0, c0
+    dm = d.magnitude
+    got = np.asarray(np.ma.getdata(dm), dtype=object)[0]
+    for q, idx in enumerate(np.ndindex(*shape) if shape else []):
+        if M is not None and M[idx]:
+            continue
+        ctx.check(ctx.eq(got[idx], a * vals[q] + b, tol=1e-9), "value-not-converted-published-value",
+                  {"sig": sig, "a": a, "b": b})
+    if not shape:
+        ctx.check(ctx.eq(np.asarray(got).reshape(-1)[0], a * vals[0] + b, tol=1e-9),
+                  "value-not-converted-published-value", {"sig": sig})
+    if M is not None:
+        ctx.check(np.ma.isMaskedArray(dm) and bool(np.array_equal(np.ma.getmaskarray(dm)[0], M)),
+                  "delivered-mask-differs", {"sig": sig})
+    # publishing an array that shares memory with the previously published one is refused
+    if form in ("array", "with_time_axis", "flat") and shape and given is None:
+        try:
+            out.push_data(data, hlib.T0 + hlib.DAY)
+            ctx.fail("memory-sharing-publication-accepted", {"sig": sig})
+        except FinamDataError:
+            ctx.cover("sharing-refused")
+
+
 EXPLANATION = (
     "Bounded symbolic execution (own proxy engine symx + z3) of the real Output.push_data / "
     "Output.get_data / Output._interpolate / Input.pull_data code: publication gaps and request times "
     "are unbounded integer microsecond variables, every branch of the real code on them is explored on "
-    "both feasible sides, and the nearest-publication / in-range oracle is posed as PC ∧ ¬property."
+    "both feasible sides, and the nearest-publication / in-range oracle is posed as PC ∧ ¬property. "
+    "Family 'payload': symbolic real values in every payload form (array, list, flat in grid order, with time axis, "
+    "masked, scalar; optionally as a quantity in foreign units) x grid kind (NoGrid 0/1-d, Uniform cells F / points C, "
+    "ESRI, unstructured) x unit pair (equal, factor, offset, foreign) through the real tools.prepare / Output.push_data / "
+    "Input.pull_data / to_units: z3 refutes delivered ≠ a·v+b (pint's a, b), shape = (1,)+grid shape, units, mask; a "
+    "second publication of the same array is refused."
 )
 ASSUMPTIONS = ["single consumer, requests non-decreasing (the documented pull discipline)"]
 
@@ -67,4 +155,7 @@ def families(tier):
         fams.append(dict(name="crosshair:nearest", kind="crosshair", ref="vf.chrun:replay", src=chsrc.NEAREST, params={},
                          bounds="CrossHair on Output._interpolate with 3-4 publications, gaps <= 10^6 / 10^4 us (independent second encoding; inconclusive results are reported, not counted)",
                          per_condition_timeout=60, must_cover=["ran"]))
+    fams.append(dict(name="payload", ref="vf.props.c08:h_payload", params={},
+                     bounds="6 grid kinds x 5 unit set-ups x 6 payload forms, symbolic values",
+                     must_cover=["delivered", "sharing-refused"]))
     return fams
